@@ -60,6 +60,7 @@ fn exec_edge(v: &Value, nh: usize, maxbufs: usize, statics: &[Vec<u8>], variants
             let mut pool = Pool::new(nh, maxbufs, statics);
             let mut recs: Vec<Value> = Vec::with_capacity(path.len());
             let mut final_res = None;
+            let mut prefix_agrees = true; // crate and String held the same texts after every earlier step of the path
             for (i, op) in path.iter().enumerate() {
                 let mut op = op.clone();
                 if i + 1 == path.len() {
@@ -72,6 +73,14 @@ fn exec_edge(v: &Value, nh: usize, maxbufs: usize, statics: &[Vec<u8>], variants
                 recs.push(json!({"c":call_json(&op, &r),"o":o,"std":pool.std_texts()}));
                 if i + 1 == path.len() {
                     final_res = Some(r);
+                } else {
+                    let std = pool.std_texts();
+                    for h in 0..nh {
+                        let dead = o["hd"][h]["k"] == "D";
+                        if dead != (std[h] == json!([-1])) || (!dead && o["hd"][h]["text"] != std[h]) {
+                            prefix_agrees = false;
+                        }
+                    }
                 }
             }
             let r = final_res.unwrap();
@@ -94,7 +103,9 @@ fn exec_edge(v: &Value, nh: usize, maxbufs: usize, statics: &[Vec<u8>], variants
             let mut spec_error = Value::Null;
             // (only an execution in which the crate matched the model exactly can testify against the
             // specification: a deviating crate may have corrupted the process it shares with String)
-            if diffs.is_empty() && !failed && !exp_failed && r.scls != "skipped" {
+            // and only if crate and String were still in step when the final call was made: a crate that went wrong on
+            // the way (its own finding, reported where that step is the final one) leaves the two apart for good)
+            if diffs.is_empty() && prefix_agrees && !failed && !exp_failed && r.scls != "skipped" {
                 let std = recs.last().unwrap()["std"].clone();
                 let mut bad = false;
                 for h in 0..nh {
